@@ -101,6 +101,13 @@ def setAssoc {α} (k : Nat) (v : α) : List (Nat × α) → List (Nat × α)
   | [] => [(k, v)]
   | (k', v') :: rest => if k' == k then (k, v) :: rest else (k', v') :: setAssoc k v rest
 
+def dedupStr (l : List String) : List String :=
+  l.foldl (fun acc x => if acc.contains x then acc else acc ++ [x]) []
+
+/-- valid attested QCs having the view of the reported high QC `q` (ties of the high-QC sort) -/
+def highCandidates (E : CertEnv) (ag : AggQC) (q : QC) : List QC :=
+  q :: (ag.qcs.map (·.2)).filter (fun x => verifyQC E x && x.view == q.view)
+
 def combineStr (c : Cfg) (l : List Sig) : Option Sig × String :=
   match combine c l with
   | .ok s => (some s, descSigM s)
@@ -268,14 +275,24 @@ def certStep (s : CertSt) (toks : List String) : CertSt × String :=
     | _, _ => (s, "bad-op")
   | ["verify-agg", r, a] =>
     match s.replica r, s.aggs.lookup a with
-    | some _, some ag => (s, vresStr (fun q => s!"ok high={q.view}:{q.hash}") (verifyAggQC E ag))
+    | some _, some ag =>
+      -- Go sorts with an unstable sort over a map: among valid QCs of the same (maximal) view any
+      -- one may be reported; all alternatives are listed (separated by " || ")
+      match verifyAggQC E ag with
+      | .ok q => (s, joinWith " || " (dedupStr ((highCandidates E ag q).map fun x => s!"ok high={x.view}:{x.hash}")))
+      | r => (s, vresStr (fun _ => "ok") r)
     | _, _ => (s, "bad-op")
   | ["verify-any", r, b, a] =>
     match s.replica r, s.blocks.lookup b with
     | some _, some b =>
       if a == "-" then (s, vresStr (fun _ => "ok") (verifyAnyQC E s.agg b.qc none))
       else match s.aggs.lookup a with
-        | some ag => (s, vresStr (fun _ => "ok") (verifyAnyQC E s.agg b.qc (some ag)))
+        | some ag =>
+          match (if s.agg then ag.sig else none), verifyAggQC E ag with
+          | some _, .ok q =>
+            (s, joinWith " || " (dedupStr ((highCandidates E ag q).map fun x =>
+              if b.qc.equals x && verifyQC E b.qc then "ok" else "reject")))
+          | _, _ => (s, vresStr (fun _ => "ok") (verifyAnyQC E s.agg b.qc (some ag)))
         | none => (s, "bad-op")
     | _, _ => (s, "bad-op")
   | ["verify-pc", r, sg, b] =>
